@@ -206,6 +206,14 @@ type nodeRig struct {
 	issued             []uint64
 	inflight           int
 	delayFailingCancel bool
+	mgrOpts            []impl.DataTransferOption // extra manager options (channel monitor configuration)
+	failRestartSends   bool                      // integrated monitor suite: every restart request fails to send
+	failConnect        bool                      // ... every ConnectTo fails
+	failTrOpen         bool                      // ... every transport OpenChannel fails
+	connects           int
+	allSent            []sentRec // cumulative (never reset by exec)
+	allTrs             []trRec
+	allEvents          []evRec
 	subLogs            map[int][]subEv // per subscriber id (harness subscribers other than the reference one)
 	unsubs             map[int]datatransfer.Unsubscribe
 }
@@ -303,6 +311,9 @@ func (n *netDouble) SendMessage(ctx context.Context, p peer.ID, m datatransfer.M
 		ok, r.sendf = r.sendf[0], r.sendf[1:]
 	}
 	spec := r.specOfMsg(m)
+	if r.failRestartSends && spec.IsReq && spec.Type == mtRestart {
+		ok = false
+	}
 	r.mu.Unlock()
 	if !ok && spec.Type == 2 && r.delayFailingCancel { // a failing cancel message (sent asynchronously by CloseDataTransferChannel):
 		// let the failure surface only after the Cancel event has been processed, to make the order deterministic
@@ -323,16 +334,27 @@ func (n *netDouble) SendMessage(ctx context.Context, p peer.ID, m datatransfer.M
 	}
 	r.mu.Lock()
 	r.sent = append(r.sent, sentRec{tokOfPeer(p), spec, ok})
+	r.allSent = append(r.allSent, sentRec{tokOfPeer(p), spec, ok})
 	r.mu.Unlock()
 	if !ok {
 		return errors.New("send failed")
 	}
 	return nil
 }
-func (n *netDouble) SetDelegate(rc network.Receiver)                       { n.r.receiver = rc }
-func (n *netDouble) ConnectTo(context.Context, peer.ID) error              { return nil }
-func (n *netDouble) ConnectWithRetry(ctx context.Context, p peer.ID) error { return nil }
-func (n *netDouble) ID() peer.ID                                           { return n.r.self }
+func (n *netDouble) SetDelegate(rc network.Receiver) { n.r.receiver = rc }
+func (n *netDouble) ConnectTo(context.Context, peer.ID) error {
+	n.r.mu.Lock()
+	defer n.r.mu.Unlock()
+	n.r.connects++
+	if n.r.failConnect {
+		return errors.New("connect failed")
+	}
+	return nil
+}
+func (n *netDouble) ConnectWithRetry(ctx context.Context, p peer.ID) error {
+	return n.ConnectTo(ctx, p)
+}
+func (n *netDouble) ID() peer.ID { return n.r.self }
 func (n *netDouble) Protocol(context.Context, peer.ID) (protocol.ID, error) {
 	return datatransfer.ProtocolDataTransfer1_2, nil
 }
@@ -362,8 +384,12 @@ func (t *trDouble) rec(rc trRec) error {
 	if rc.Kind != "cleanup" && len(r.trf) > 0 {
 		ok, r.trf = r.trf[0], r.trf[1:]
 	}
+	if rc.Kind == "open" && r.failTrOpen {
+		ok = false
+	}
 	rc.OK = ok
 	r.trs = append(r.trs, rc)
+	r.allTrs = append(r.allTrs, rc)
 	if !ok {
 		return errors.New("transport error")
 	}
@@ -427,7 +453,7 @@ func newNodeRig(res *suiteResult, selfTok int) *nodeRig {
 
 // boot creates a manager on the rig's datastore (also used for process restarts)
 func (r *nodeRig) boot() {
-	m, err := impl.NewDataTransfer(r.ds, &netDouble{r}, &trDouble{r})
+	m, err := impl.NewDataTransfer(r.ds, &netDouble{r}, &trDouble{r}, r.mgrOpts...)
 	if err != nil {
 		panic(err)
 	}
@@ -465,6 +491,7 @@ func (r *nodeRig) onEvent(evt datatransfer.Event, st datatransfer.ChannelState) 
 	v := r.viewOf(st)
 	r.mu.Lock()
 	r.events = append(r.events, evRec{r.chidTokOf(st.ChannelID()), evt.Code, v, st})
+	r.allEvents = append(r.allEvents, evRec{r.chidTokOf(st.ChannelID()), evt.Code, v, st})
 	r.mu.Unlock()
 }
 
